@@ -578,9 +578,14 @@ class ChartRun(object):
       elif k in ('sib_post_fifo', 'sib_post_lifo'):
         e = self.new_event(op[1])
         self.created.remove(e.payload)
+        cap_ = self.qm.cap       # the second chart's queue is bounded like the first one's
         if k == 'sib_post_fifo':
+          if len(self.sib_q) >= cap_:
+            self.sib_q.pop(0)
           self.sib_q.append(e.payload)
         else:
+          if len(self.sib_q) >= cap_:
+            self.sib_q.pop()
           self.sib_q.insert(0, e.payload)
         ob = self.do(op, (lambda: self.sib.post_fifo(e)) if k == 'sib_post_fifo' else (lambda: self.sib.post_lifo(e)))
       elif k == 'sib_rtc':
